@@ -41,11 +41,31 @@ TransducersOnEnc ==
   /\ Compact(b, TRUE).out = Enc(v, TRUE) /\ HTMLEscape(b) = Enc(v, TRUE)
   /\ Compact(Indent(b, <<>>, <<32>>).out, FALSE).out = b
 
+(***************************************************************************)
+(* The token stream of Decoder.Token for a text: delimiters, member names  *)
+(* and scalar values in document order (stream.go).                        *)
+(***************************************************************************)
+TDelim(c) == [k |-> "delim", c |-> c, cp |-> <<>>, b |-> FALSE]
+RECURSIVE Tokens(_)
+Tokens(x) ==
+  CASE x.t = "null" -> << [k |-> "null", c |-> 0, cp |-> <<>>, b |-> FALSE] >>
+    [] x.t = "bool" -> << [k |-> "bool", c |-> 0, cp |-> <<>>, b |-> x.b] >>
+    [] x.t = "num"  -> << [k |-> "num", c |-> 0, cp |-> x.lit, b |-> FALSE] >>
+    [] x.t = "str"  -> << [k |-> "str", c |-> 0, cp |-> x.cp, b |-> FALSE] >>
+    [] x.t = "arr"  -> LET n == Len(x.e)
+                           f[i \in 0..n] == IF i = 0 THEN <<>> ELSE f[i-1] \o Tokens(x.e[i])
+                       IN  <<TDelim(91)>> \o f[n] \o <<TDelim(93)>>
+    [] OTHER        -> LET n == Len(x.m)
+                           f[i \in 0..n] == IF i = 0 THEN <<>>
+                                            ELSE f[i-1] \o << [k |-> "str", c |-> 0, cp |-> x.m[i].k, b |-> FALSE] >> \o Tokens(x.m[i].v)
+                       IN  <<TDelim(123)>> \o f[n] \o <<TDelim(125)>>
+
 Emit ==
   IF EmitOn THEN
     PrintT(ToJson([fam |-> "enc", v |-> v, text |-> Enc(v, FALSE),
                    sortedesc |-> Enc(SortKeys(v), TRUE), sortedraw |-> Enc(SortKeys(v), FALSE),
                    keys |-> IF v.t = "obj" THEN Keys(v) ELSE <<>>,
+                   tokens |-> Tokens(v),
                    \* Encoder.SetIndent(prefix, indent): prefix only, indent only, both
                    indp |-> Indent(Enc(SortKeys(v), FALSE), <<62>>, <<>>).out,
                    indi |-> Indent(Enc(SortKeys(v), FALSE), <<>>, <<9>>).out,
